@@ -172,6 +172,8 @@ impl LocalFunction {
     /// Collect the set of data segments that are used in this function via
     /// `memory.init` or `data.drop` instructions.
     pub fn used_data_segments(&self) -> IdHashSet<Data> {
+        #[cfg(feature = "verif-hooks")]
+        let _verif_span = crate::verif::span("used_data_segments", self.entry_block().index());
         let mut visitor = DataSegmentsVisitor::default();
         dfs_in_order(&mut visitor, self, self.entry_block());
         return visitor.segments;
